@@ -10,6 +10,12 @@ PROPS = {
             {'template': 'units/c07_binop_plan.rs.in', 'modes': [[]], 'canary': True},
         ],
         'kani': [{'name': 'c04', 'jobs': 8, 'timeout': 1500}],
+        # lowering of binary / compound-assignment statements and emit_binop_expr (quote! interpolation, &mut self
+        # recursive descent): outside the verifier's reach -> bounded stand-in through the real front end + code generator
+        'bounded_standins': [
+            {'oracle': 'incan::emit_division', 'cases': 24, 'function': 'lowering of `L op R` / `T op= R` (incl. the compound-assignment desugaring) and emit_binop_expr',
+             'bound': 'exhaustive over / // % x int/float left x int/float right x plain/compound form; one fixed program shape; checks helper, operand order and promotions in the generated call'},
+        ],
         # one concrete execution per documented message on the REAL crates (the Display impl that renders the
         # error value is outside both verifiers; the contracts pin the value, these pin its text)
         'pins': [
